@@ -586,6 +586,7 @@ func C06(p *core.Program, r *core.Report) {
 	ile := p.Func(bp7, "Bundle", "IsLifetimeExceeded")
 	okZero := len(core.CallsTo(ile, bp7+".CreationTimestamp.IsZeroTime")) > 0 && len(core.CallsTo(ile, bp7+".BundleAgeBlock.Age")) > 0
 	r.Check(okZero, "lifetime/"+fname(ile)+"/both-clocks", "IsLifetimeExceeded decides by age when the creation time is zero and by wall clock otherwise", p.Pos(ile.Pos()), "", "IsZeroTime/Age no longer consulted")
+	checkAgeIncrementSaturates(p, r)
 	nMs := checkMillisecondConversions(p, r, bp7, storagePkg, routingPkg)
 	r.Min("millisecond <-> Duration conversions", 2)
 	r.Count("millisecond <-> Duration conversions", nMs)
@@ -948,4 +949,46 @@ func sameClockSource(a, b ssa.Value) bool {
 		return false
 	}
 	return core.DependsOn(b, func(v ssa.Value) bool { return v == ssa.Value(ca) })
+}
+
+// checkAgeIncrementSaturates: the bundle age is an unsigned 64-bit count of milliseconds, accepted from the wire up to
+// its maximum ("never expires" lifetimes come with ages near it). Adding the residence time must not wrap around: a
+// wrapped age is a young one, the expired bundle would be transmitted. The sum is tested for the wrap (sum < operand)
+// and the value stored is a selection between the sum and a constant.
+func checkAgeIncrementSaturates(p *core.Program, r *core.Report) {
+	inc := p.Func(bp7, "BundleAgeBlock", "Increment")
+	n := 0
+	core.EachInstr(inc, func(in ssa.Instruction) {
+		add, ok := in.(*ssa.BinOp)
+		if !ok || add.Op != token.ADD {
+			return
+		}
+		if bt, isB := add.Type().Underlying().(*types.Basic); !isB || bt.Kind() != types.Uint64 {
+			return
+		}
+		n++
+		wrapTest := false
+		core.EachInstr(inc, func(i2 ssa.Instruction) {
+			b, ok := i2.(*ssa.BinOp)
+			if !ok {
+				return
+			}
+			if big, small, strict, isOrd := core.Greater(b); isOrd && strict && small == ssa.Value(add) && (big == add.X || big == add.Y) {
+				wrapTest = true
+			}
+		})
+		clamped := false
+		for _, ref := range *add.Referrers() {
+			if phi, isPhi := ref.(*ssa.Phi); isPhi {
+				for _, e := range phi.Edges {
+					if _, isC := e.(*ssa.Const); isC {
+						clamped = true
+					}
+				}
+			}
+		}
+		r.Check(wrapTest && clamped, "age/"+fname(inc)+"/no-wrap", "adding the residence time to the bundle age cannot wrap around: the sum is tested against an operand (sum < operand means overflow) and replaced by a constant then", p.Pos(add.Pos()), "", fmt.Sprintf("wrap test present: %v, clamped value selected: %v — an age near 2^64 plus 50 ms becomes 69 ms and the expired bundle is forwarded", wrapTest, clamped))
+	})
+	r.Min("additions in BundleAgeBlock.Increment", 1)
+	r.Count("additions in BundleAgeBlock.Increment", n)
 }
